@@ -78,9 +78,22 @@ def r_padding(r, legal_only=False):
     return r.choice([1, 2, 3, 5, 6, 7, 255, 253, r.randint(1, 255)])
 
 
+SPECIAL_HEADS = ["\ufeff", "\ufeff", "\ufeff", "\U0001f600", " ", "\t", "@", "\u00a0", "\u200b", "\ufffd", "\u0000", "\ufeff\ufeff", "\r\n"]
+SPECIAL_TAILS = ["\ufeff", "\U0001f600", " ", "\n", "@", "\u0000", ".", "\u200b"]
+
+
 def r_text(r, n):
-    """n bytes of valid UTF-8 (sometimes with NUL octets, sometimes ending in one)"""
+    """n bytes of valid UTF-8 (sometimes with NUL octets, sometimes ending in one, sometimes
+    starting or ending with a character a well-meaning setter might strip: BOM, blank, non-BMP)"""
     out = bytearray(_r_text(r, n))
+    x = r.random()
+    if x < 0.12:
+        h = r.choice(SPECIAL_HEADS).encode()
+        if len(h) <= n: out = bytearray(h + _r_text(r, n - len(h)))
+    elif x < 0.17:
+        t = r.choice(SPECIAL_TAILS).encode()
+        if len(t) <= n: out = bytearray(_r_text(r, n - len(t)) + t)
+    if len(out) != n: out = bytearray(_r_text(r, n))
     if n and out[-1] < 0x80 and r.random() < 0.12:
         out[-1] = 0
     if n > 2 and r.random() < 0.05:
@@ -393,7 +406,11 @@ def r_name(r):
         return bytes(r.choice([0, 0, 1, 0x20, 0x41, 0x61, 0x7f, r.getrandbits(7)]) for _ in range(r.choice([4, 4, 3, 2, 1])))
     if x < 0.55: return r_ascii(r, 4)
     if x < 0.8: return r_ascii(r, r.randint(0, 3))
-    if x < 0.9: return r_ascii(r, r.choice([5, 6, 8]))
+    if x < 0.86: return r_ascii(r, r.choice([5, 6, 8]))
+    if x < 0.9:
+        # too long, but only by NUL / blank octets (a trimming constructor would let it through)
+        k = r.choice([1, 2, 3, 4]); tail = r.choice([b"\0", b" "]) * r.choice([1, 2, 4])
+        return (r_ascii(r, k) + tail + b"\0" * 4)[:r.choice([5, 6, 8])] if r.random() < 0.8 else b"\0" * r.choice([5, 8])
     return r.choice(["é".encode(), "aé".encode(), "€".encode(), "ab€".encode(), "é€".encode()])
 
 
@@ -462,8 +479,13 @@ def cfg_unknown(r):
     if x < 0.85: dl = 4 * r.choice([0, 1, 2, 3, r.randint(0, 17)])
     else: dl = r.choice([1, 2, 3, 5, 6, 7, 4 * r.randint(0, 17) + r.randint(1, 3)])
     ct = r.randint(0, 31) if r.random() < 0.9 else r.choice([32, 33, 255])
-    ty = r.choice([0, 192, 199, 207, 208, 242, 255, 200, 201, 202, 203, 204, 205, 206, r.randint(0, 255)])
-    return {"k": "unknown", "type": ty, "data": r_bytes(r, dl), "padding": r_padding(r), "count": ct}
+    ty = r.choice([0, 192, 193, 195, 199, 207, 208, 242, 255, 72, 76, 200, 201, 202, 203, 204, 205, 206, r.randint(0, 255)])
+    data = r_bytes(r, dl)
+    if dl >= 4 and dl % 4 == 0 and r.random() < 0.12:
+        # the payload looks like a packet itself: version 2, same (or another) type, consistent length
+        inner_ty = ty if r.random() < 0.7 else r.choice([200, 201, 207])
+        data = bytes([0x80 | r.getrandbits(5) | (0x20 if r.random() < 0.2 else 0), inner_ty]) + struct.pack(">H", dl // 4 - 1) + data[4:]
+    return {"k": "unknown", "type": ty, "data": data, "padding": r_padding(r), "count": ct}
 
 
 def r_nack(r):
